@@ -40,6 +40,27 @@ func (x *Exec) callStep(f *frame, in *ssa.Call) {
 	k := x.calls[name] + 1
 	v := x.call(f, in, in.Common())
 	x.vals[in] = v
+	if name != "" && len(v.Tu) == 2 && !x.X.bvMode {
+		// (T, error) results: lastret("name") is the first component (integers only),
+		// lastret("name.err") the error as a reference (0 = nil)
+		if tu, ok := in.Type().(*types.Tuple); ok && tu.Len() == 2 && tu.At(1).Type().String() == "error" {
+			if _, isInt := x.X.intInfoOf(tu.At(0).Type()); isInt && v.Tu[0].T != "" {
+				for _, cn := range []string{"Ghost_ret_" + sanitize(name), "Ghost_ret_" + sanitize(fmt.Sprintf("%s#%d", name, k))} {
+					if x.comps[cn] != "" {
+						f.st.heap[cn] = v.Tu[0].T
+					}
+				}
+			}
+			if v.Tu[1].T != "" {
+				for _, cn := range []string{"Ghost_ret_" + sanitize(name+".err"), "Ghost_ret_" + sanitize(fmt.Sprintf("%s#%d.err", name, k))} {
+					if x.comps[cn] != "" {
+						f.st.heap[cn] = v.Tu[1].T
+					}
+				}
+			}
+		}
+		return
+	}
 	if name == "" || v.T == "" {
 		return
 	}
